@@ -1,2 +1,98 @@
-//! Harnesses that need private items of core/src/serializer.rs (child module, cfg(kani) only).
-#![allow(dead_code, unused_imports, missing_debug_implementations, unreachable_pub, unnameable_types)]
+//! C01-d (unit `depth`): the serializer's nesting counter for every parent depth (symbolic); see
+//! harness/core/deserializer.rs. Child module of core/src/serializer.rs.
+#![allow(dead_code, unused_imports, missing_debug_implementations, unreachable_pub, unnameable_types, static_mut_refs)]
+#![cfg(any(verif_unit = "all", verif_unit = "depth"))]
+
+use super::*;
+
+static mut SEEN: u8 = 0xff;
+
+struct DepthProbe;
+
+impl Serialize<tags::Unit> for DepthProbe {
+    fn serialize(self, s: Serializer) -> Result<(), SerializeError> {
+        unsafe { SEEN = s.depth };
+        Ok(())
+    }
+}
+
+fn seen() -> u8 {
+    unsafe { SEEN }
+}
+
+fn any_parent_depth() -> u8 {
+    let d: u8 = kani::any();
+    kani::assume(d >= 1 && d <= 32);
+    d
+}
+
+fn expect_child<T>(r: Result<T, SerializeError>, parent: u8) {
+    match r {
+        Ok(_) => assert!(parent < 32 && seen() == parent + 1, "child is created exactly one level deeper"),
+        Err(e) => assert!(parent == 32 && e == SerializeError::TooDeeplyNested, "only nesting beyond 32 fails, with the nesting error"),
+    }
+}
+
+#[kani::proof]
+#[kani::unwind(6)]
+fn q_c01_depth_ser_constructor() {
+    let d: u8 = kani::any();
+    kani::assume(d <= 32);
+    let mut buf = BytesMut::new();
+    match Serializer::new(&mut buf, d) {
+        Ok(s) => assert!(d <= 31 && s.depth == d + 1),
+        Err(e) => assert!(d == 32 && e == SerializeError::TooDeeplyNested),
+    }
+}
+
+#[kani::proof]
+#[kani::unwind(6)]
+fn q_c01_depth_ser_some_enum() {
+    let d = any_parent_depth();
+    let mut buf = BytesMut::new();
+    let s = Serializer { buf: &mut buf, depth: d };
+    expect_child(s.serialize_some::<tags::Unit>(DepthProbe), d);
+    let mut buf = BytesMut::new();
+    let s = Serializer { buf: &mut buf, depth: d };
+    expect_child(s.serialize_enum::<tags::Unit>(5u32, DepthProbe), d);
+}
+
+#[kani::proof]
+#[kani::unwind(6)]
+fn q_c01_depth_ser_vec() {
+    let d = any_parent_depth();
+    let mut buf = BytesMut::new();
+    let mut v = Vec1Serializer::new(&mut buf, 1, d).unwrap();
+    expect_child(v.serialize::<tags::Unit>(DepthProbe).map(|_| ()), d);
+    let mut buf = BytesMut::new();
+    let mut v = Vec2Serializer::new(&mut buf, d).unwrap();
+    expect_child(v.serialize::<tags::Unit>(DepthProbe).map(|_| ()), d);
+}
+
+#[kani::proof]
+#[kani::unwind(6)]
+fn q_c01_depth_ser_map() {
+    let d = any_parent_depth();
+    let k: u8 = kani::any();
+    let mut buf = BytesMut::new();
+    let mut m = Map1Serializer::<tags::U8>::new(&mut buf, 1, d).unwrap();
+    expect_child(m.serialize::<tags::Unit>(&k, DepthProbe).map(|_| ()), d);
+    let mut buf = BytesMut::new();
+    let mut m = Map2Serializer::<tags::U8>::new(&mut buf, d).unwrap();
+    expect_child(m.serialize::<tags::Unit>(&k, DepthProbe).map(|_| ()), d);
+}
+
+#[kani::proof]
+#[kani::unwind(6)]
+fn q_c01_depth_ser_struct() {
+    let d = any_parent_depth();
+    let mut buf = BytesMut::new();
+    let mut s = Struct1Serializer::new(&mut buf, 1, d).unwrap();
+    expect_child(s.serialize::<tags::Unit>(3u32, DepthProbe).map(|_| ()), d);
+    let mut buf = BytesMut::new();
+    let mut s = Struct2Serializer::new(&mut buf, d).unwrap();
+    expect_child(s.serialize::<tags::Unit>(3u32, DepthProbe).map(|_| ()), d);
+}
+
+#[cfg(verif_replay)]
+include!("/verif/.cache/replay/serializer__verif.rs");
